@@ -1,6 +1,6 @@
 (* C05: assembly of the byte-level statements. *)
 From Gv Require Import lib.Bytes lib.Gql C05.Lex C05.Parse C05.Limits C05.Print C05.Spec C05.Tokens
-  C05.ProofsLex C05.ProofsLimits C05.ProofsParse C05.ProofsTotal C05.ProofsRoundtrip C05.ProofsWf C05.ProofsMisc C05.ProofsInline.
+  C05.ProofsLex C05.ProofsLimits C05.ProofsParse C05.ProofsTotal C05.ProofsRoundtrip C05.ProofsWf C05.ProofsMisc C05.ProofsInline C05.PreFix.
 From Coq Require Import ZArith.
 Open Scope N_scope.
 
@@ -51,14 +51,39 @@ Proof.
   intros ind b d r d' r' Hp Hl H. rewrite (roundtrip_partial_proof ind b d r Hp Hl) in H. inversion H; subst. reflexivity.
 Qed.
 
-(* without the lexical hypothesis the statement is false: a block string whose content ends in a
-   quote, written a(x: <3 quotes> a <quote> <space> <3 quotes>) *)
+(* ---- HISTORICAL: the round trip was false of the lexer and printer before the repairs (PreFix.v) ----
+   a block string whose content ends in a quote, written a(x: <3 quotes> a <quote> <space> <3 quotes>):
+   printed <3 quotes> a <quote> <3 quotes>, which does not parse *)
 Definition witness_block_tail : bytes :=
   [123;97;40;120;58;34;34;34;97;34;32;34;34;34;41;125].
-Theorem roundtrip_refuted_proof :
-  exists b d, parse_bytes b = Ok d [] /\ parse_bytes (print d) = Err /\ lex_print_ok_b None d = false.
+Theorem roundtrip_refuted_before_fix_proof :
+  exists b d, V0.parse_bytes b = Ok d [] /\ V0.parse_bytes (V0.print d) = Err.
 Proof.
-  exists witness_block_tail. eexists. split; [vm_compute; reflexivity|]. split; vm_compute; reflexivity.
+  exists witness_block_tail. eexists. split; vm_compute; reflexivity.
+Qed.
+(* a NUL byte inside a string: {a(x:<quote>a NUL)} parsed (content a NUL), its print did not *)
+Definition witness_nul_string : bytes := [123;97;40;120;58;34;97;0;41;125].
+Theorem nul_in_string_refuted_before_fix_proof :
+  exists d, V0.parse_bytes witness_nul_string = Ok d [] /\ V0.parse_bytes (V0.print d) = Err.
+Proof. eexists. split; vm_compute; reflexivity. Qed.
+(* a quote next to trailing white space: <3 quotes> a SPACE <quote> SPACE <3 quotes> was stored as "a ",
+   which prints and re-parses as "a": the round trip succeeded with a different tree *)
+Definition witness_block_quote_ws : bytes :=
+  [123;97;40;120;58;34;34;34;97;32;34;32;34;34;34;41;125].
+Theorem block_content_changes_before_fix_proof :
+  exists d d', V0.parse_bytes witness_block_quote_ws = Ok d [] /\ V0.parse_bytes (V0.print d) = Ok d' [] /\ d' <> d.
+Proof. eexists. eexists. split; [vm_compute; reflexivity|]. split; [vm_compute; reflexivity|]. discriminate. Qed.
+
+(* the same inputs on the repaired functions: the block strings keep their content and round-trip, the
+   document with the NUL byte is rejected *)
+Example witnesses_repaired :
+  (exists d, parse_bytes witness_block_tail = Ok d [] /\ lex_print_ok_b None d = true /\ parse_bytes (print d) = Ok d []) /\
+  (exists d, parse_bytes witness_block_quote_ws = Ok d [] /\ lex_print_ok_b None d = true /\ parse_bytes (print d) = Ok d []) /\
+  parse_bytes witness_nul_string = Err.
+Proof.
+  split; [eexists; split; [vm_compute; reflexivity|split; vm_compute; reflexivity]|].
+  split; [eexists; split; [vm_compute; reflexivity|split; vm_compute; reflexivity]|].
+  vm_compute; reflexivity.
 Qed.
 
 (* limits on bytes *)
